@@ -190,6 +190,16 @@ func init() {
 				}
 			}
 		}
+		// a variable that held a value is set again to an EMPTY one through every setter (and back): the print shows
+		// the latest assignment — nothing, without prefix and suffix
+		for _, first := range []SOp{{Kind: "string", Name: "x", Val: "old"}, {Kind: "bytes", Name: "x", Val: []byte("old")}, {Kind: "static", Name: "x", Val: "old"}, {Kind: "counter", Name: "x", Val: 5}} {
+			for _, second := range []SOp{{Kind: "string", Name: "x", Val: ""}, {Kind: "bytes", Name: "x", Val: []byte{}}, {Kind: "static", Name: "x", Val: ""}, {Kind: "static", Name: "x", Val: nil}, {Kind: "bytes", Name: "x", Val: []byte("new")}} {
+				c := &RCase{Tpls: []TplDef{{Key: "main", Src: `[{%= x pfx < sfx > %}|{%= x %}]`, KeepFmt: true}}, Meta: map[string]any{"set-then-set-empty": first.Desc() + " ; " + second.Desc()}}
+				c.Ops = []SOp{first, {Kind: "render", Key: "main"}, second, {Kind: "render", Key: "main"}, first, {Kind: "render", Key: "main"}}
+				cases = append(cases, c)
+				r.Dist["set-then-set-empty"]++
+			}
+		}
 		// loops only to give indexed paths a counter
 		cfg2 := GenCfg{MaxDepth: 2, MaxNodes: 14, PreSuf: true, Loops: true}
 		for i := 0; i < r.N(1000, 30000); i++ {
